@@ -17,6 +17,22 @@
 #include "../../sim/symtab.h"
 #include "../../spec/wire.h"
 #include "../reent/drivers.h"
+// the same drivers compiled behind all public headers in alphabetical (A_) and reverse (Z_) order (tools/build_drv_variants.sh);
+// an operation names the variant it goes through (inc=0/1/2)
+extern "C" {
+extern decltype(drv_can_create) A_drv_can_create, Z_drv_can_create;
+extern decltype(drv_can_create_fixed) A_drv_can_create_fixed, Z_drv_can_create_fixed;
+extern decltype(drv_can_finalize) A_drv_can_finalize, Z_drv_can_finalize;
+extern decltype(drv_can_payload_length) A_drv_can_payload_length, Z_drv_can_payload_length;
+extern decltype(drv_can_setpayload) A_drv_can_setpayload, Z_drv_can_setpayload;
+extern decltype(drv_canbrief_finalize) A_drv_canbrief_finalize, Z_drv_canbrief_finalize;
+extern decltype(drv_canbrief_setpayload) A_drv_canbrief_setpayload, Z_drv_canbrief_setpayload;
+extern decltype(drv_vss_decode) A_drv_vss_decode, Z_drv_vss_decode;
+extern decltype(drv_vss_encode) A_drv_vss_encode, Z_drv_vss_encode;
+extern decltype(drv_vss_pad) A_drv_vss_pad, Z_drv_vss_pad;
+}
+static int g_inc = 0;
+#define DRV(name) (g_inc == 1 ? A_##name : g_inc == 2 ? Z_##name : name)
 
 using sim::Rng;
 using sim::strf;
@@ -131,6 +147,9 @@ static std::string gen(const std::string &prop, uint64_t base, uint64_t idx, boo
         }
     }
     int nops = (int)(r.chance(0.2) ? r.range(3, 20) : r.range(20, thorough ? 1000 : 300));
+    // the hand-driven operations of a history go through one of three compilations of the drivers: header included alone, or behind
+    // all public headers in alphabetical / reverse order (what one header leaves behind for the next is part of an application's context)
+    int inc_variant = (int)(idx % 4 == 1 ? 1 : idx % 4 == 3 ? 2 : 0);
     int cur = (int)r.below(bufs.size());
     std::map<int, std::vector<std::string>> written;  // buffer -> fields written so far
     for (int i = 0; i < nops; i++) {
@@ -152,15 +171,15 @@ static std::string gen(const std::string &prop, uint64_t base, uint64_t idx, boo
                 unsigned plen2 = am == 1 ? 0 : (unsigned)r.below(std::min(200, b.pay / 2));
                 unsigned roomv = (unsigned)b.pay - (am == 1 ? 4 : 2 + plen2) - 2 - 8;
                 unsigned nel = (unsigned)(r.chance(0.5) ? r.below(8) : r.below(roomv / es + 1));
-                line(strf("op b=%d vssenc am=%u dt=%u plen=%u sid=0x%x v=0x0 pseed=0x%llx alen=%u", b.id, am, vdt[vi], plen2, (unsigned)r.next(), (unsigned long long)r.next(), nel * es));
-                if (r.coin()) { line(strf("op b=%d vssdec q=%d", b.id, (int)r.coin())); i++; }
+                line(strf("op b=%d vssenc am=%u dt=%u plen=%u sid=0x%x v=0x0 pseed=0x%llx alen=%u inc=%d", b.id, am, vdt[vi], plen2, (unsigned)r.next(), (unsigned long long)r.next(), nel * es, inc_variant));
+                if (r.coin()) { line(strf("op b=%d vssdec q=%d inc=%d", b.id, (int)r.coin(), inc_variant)); i++; }
                 continue;
             }
             unsigned room = (unsigned)b.pay - nb[dt] - 2;
             unsigned plen = am == 1 ? 0 : (unsigned)(r.chance(0.4) ? std::min<unsigned>(room, (unsigned[]){0, 1, 13, 255, 256, 1009, 1010, 1013, 1020, 1021, 2000}[r.below(11)]) : r.below(room + 1));
             line(strf("op b=%d vssenc am=%u dt=%u plen=%u sid=0x%x v=0x%llx pseed=0x%llx", b.id, am, dt, plen, (unsigned)r.next(), (unsigned long long)(dt == 8 ? r.below(2) : r.next()),
-                      (unsigned long long)r.next()));
-            if (r.coin()) { line(strf("op b=%d vssdec", b.id)); i++; }
+                      (unsigned long long)r.next()) + strf(" inc=%d", inc_variant));
+            if (r.coin()) { line(strf("op b=%d vssdec inc=%d", b.id, inc_variant)); i++; }
             continue;
         }
         if (std::string(f->name) == "Vss" && b.pay >= 300 && r.chance(0.12)) {
@@ -168,7 +187,7 @@ static std::string gen(const std::string &prop, uint64_t base, uint64_t idx, boo
             unsigned maxlen = (unsigned)std::min<int>(2044, (int)f->spec_bytes + b.pay - 4);
             unsigned len = (unsigned)(r.chance(0.4) ? (unsigned[]){12, 13, 255, 256, 1020, 1021, 1023, 1024, 2041, 2044}[r.below(10)] : r.range(12, maxlen));
             if (len > maxlen) len = maxlen;
-            line(strf("op b=%d build kind=vsspad id=0x0 len=%u variant=0 dseed=0x1", b.id, len));
+            line(strf("op b=%d build kind=vsspad id=0x0 len=%u variant=0 dseed=0x1 inc=%d", b.id, len, inc_variant));
             continue;
         }
         if (b.pay >= 68 && r.chance(0.12)) {
@@ -179,7 +198,7 @@ static std::string gen(const std::string &prop, uint64_t base, uint64_t idx, boo
             uint32_t bid = (uint32_t)(r.chance(0.4) ? (uint32_t[]){0, 1, 0x7ff, 0x800, 0x1fffffff, 0x20000000, 0xffffffffu}[r.below(7)] : r.next());
             // (a data-less frame is also built with a null payload pointer)
             line(strf("op b=%d build kind=%s id=0x%x len=%u variant=%d dseed=0x%llx%s", b.id, kinds[r.below(4)], bid, len, (int)(r.chance(0.85) ? r.below(2) : (unsigned[]){2, 3, 4, 8, 16, 255}[r.below(6)]), (unsigned long long)r.next(),
-                      (len == 0 && r.coin()) ? " nullp=1" : r.chance(0.3) ? " fixed=1" : ""));
+                      (len == 0 && r.coin()) ? " nullp=1" : r.chance(0.3) ? " fixed=1" : r.chance(0.15) ? " inplace=1" : "") + strf(" inc=%d", inc_variant));
             continue;
         }
         unsigned k = (unsigned)r.below(100);
@@ -427,6 +446,7 @@ static void exec(const std::string &text, bool verbose) {
         last_task = b.task;
         if (b.parent >= 0) pr_sub++;
         std::string what = kv.kv.empty() ? "" : kv.kv[1].first;  // kv[0] is b=
+        g_inc = (int)(kv.u64("inc", 0) % 3);
         auto check_bytes = [&](const std::string &sigtail, const std::string &ctx) {
             if (memcmp(a.mem, a.model.data(), a.size) != 0)
                 violation("bytes:" + sigtail, ctx + ": " + first_diff(a.mem, a.model.data(), a.size, b.off, f->spec_bytes));
@@ -585,7 +605,7 @@ static void exec(const std::string &text, bool verbose) {
             for (auto &x : arr) x = (uint8_t)pr.next();
             uint8_t *ap = arr.data();
             DIRTY();
-            drv_vss_encode(pdu, am, dt, sid, pp, (uint16_t)plen, v, var ? ap : nullptr, (uint16_t)alen);
+            DRV(drv_vss_encode)(pdu, am, dt, sid, pp, (uint16_t)plen, v, var ? ap : nullptr, (uint16_t)alen);
             { const BindField *fl = find_field(f, "ADDR_MODE"); if (fl) wire::set_bits(mpdu, fl->bit, fl->width, am); }
             { const BindField *fl = find_field(f, "VSS_DATATYPE"); if (fl) wire::set_bits(mpdu, fl->bit, fl->width, dt); }
             uint8_t *mp = mpdu + 12;
@@ -600,6 +620,7 @@ static void exec(const std::string &text, bool verbose) {
                 for (size_t i = 0; i < n; i++) mp[i] = (uint8_t)(v >> (8 * (n - 1 - i)));  // big-endian scalar
             }
             per_entry["entry.vss_encode"]++;
+            if (g_inc) per_entry[g_inc == 1 ? "entry.driver_behind_all_headers_az" : "entry.driver_behind_all_headers_za"]++;
             check_bytes(strf("Vss.<encode>:%s", am == 1 ? "static" : "interop"), strf("after encoding datatype 0x%x behind a %s path of %zu bytes", dt, am == 1 ? "static-id" : "interop", plen));
             b.has_last = false;
             b.vss_ok = true; b.vss_am = am; b.vss_dt = dt; b.vss_path.assign(path.begin(), path.begin() + plen); b.vss_arr.assign(arr.begin(), arr.begin() + alen); b.vss_v = v; b.vss_op = op_index;
@@ -616,7 +637,7 @@ static void exec(const std::string &text, bool verbose) {
             buf_protect(a.raw, a.size, true);
             if (kv.u64("q", 0)) {  // a string or array is usually decoded twice: first without destination, to learn the length
                 DIRTY();
-                (void)drv_vss_decode(pdu, pp, nullptr);
+                (void)DRV(drv_vss_decode)(pdu, pp, nullptr);
                 per_entry["entry.vss_decode.length_query"]++;
                 buf_protect(a.raw, a.size, false);
                 check_bytes("Vss.<decode>:query", "after asking the decoder for the length only (null destination; a read)");
@@ -624,7 +645,7 @@ static void exec(const std::string &text, bool verbose) {
                 buf_protect(a.raw, a.size, true);
             }
             DIRTY();
-            (void)drv_vss_decode(pdu, pp, ap);
+            (void)DRV(drv_vss_decode)(pdu, pp, ap);
             buf_protect(a.raw, a.size, false);
             per_entry["entry.vss_decode"]++;
             check_bytes("Vss.<decode>", "after decoding the message (a read)");
@@ -641,7 +662,7 @@ static void exec(const std::string &text, bool verbose) {
             if (len < f->spec_bytes || b.off + len + pad > a.size - kGuard) continue;
             ev("build", strf("b=%d Vss kind=vsspad len=%zu", b.id, len));
             DIRTY();
-            drv_vss_pad(pdu, (uint16_t)len);
+            DRV(drv_vss_pad)(pdu, (uint16_t)len);
             memset(mpdu + len, 0, pad);
             { const BindField *fl = find_field(f, "ACF_MSG_LENGTH"); if (fl) wire::set_bits(mpdu, fl->bit, fl->width, ((len + pad) / 4) & mask_w(fl->width)); }
             { const BindField *fl = find_field(f, "PAD"); if (fl) wire::set_bits(mpdu, fl->bit, fl->width, pad & mask_w(fl->width)); }
@@ -664,17 +685,21 @@ static void exec(const std::string &text, bool verbose) {
             for (auto &x : src) x = (uint8_t)dr.next();
             ev("build", strf("b=%d %s kind=%s id=0x%x len=%zu variant=%d", b.id, f->name, kind.c_str(), cid, len, variant));
             auto mset = [&](const char *name, uint64_t v) { const BindField *fl = find_field(f, name); if (fl) wire::set_bits(mpdu, fl->bit, fl->width, v & mask_w(fl->width)); };
-            auto m_payload = [&] { memcpy(mpdu + hdr, src.data(), len); };
+            bool inplace_model = false;
+            auto m_payload = [&] { if (!inplace_model) memcpy(mpdu + hdr, src.data(), len); };
             auto m_finalize = [&] { memset(mpdu + hdr + len, 0, pad); mset("ACF_MSG_LENGTH", (hdr + len + pad) / 4); mset("PAD", pad); };
             int bk = (kind == "setpayload" && !brief) ? 0 : kind == "finalize" ? 1 : 2;
             uint8_t *srcp = (len == 0 && kv.u64("nullp", 0)) ? nullptr : src.data();
             bool fixed = kv.u64("fixed", 0) && srcp;
+            // zero-copy use: the application has put the frame data where the message keeps it and passes that very address
+            bool inplace = kv.u64("inplace", 0) && srcp && !fixed && len > 0 && bk != 1;
+            if (inplace) { srcp = pdu + hdr; inplace_model = true; per_entry["entry.build.payload_in_place"]++; }
             DIRTY();
-            if (bk == 0) { drv_can_setpayload(pdu, srcp, (uint16_t)len); m_payload(); }
-            else if (bk == 1) { if (brief) drv_canbrief_finalize(pdu, (uint16_t)len); else drv_can_finalize(pdu, (uint16_t)len); m_finalize(); }
+            if (bk == 0) { DRV(drv_can_setpayload)(pdu, srcp, (uint16_t)len); m_payload(); }
+            else if (bk == 1) { if (brief) DRV(drv_canbrief_finalize)(pdu, (uint16_t)len); else DRV(drv_can_finalize)(pdu, (uint16_t)len); m_finalize(); }
             else {
-                if (brief) drv_canbrief_setpayload(pdu, cid, srcp, (uint16_t)len, variant);
-                else if (!fixed || !drv_can_create_fixed(pdu, cid, srcp, (uint16_t)len, variant)) drv_can_create(pdu, cid, srcp, (uint16_t)len, variant);
+                if (brief) DRV(drv_canbrief_setpayload)(pdu, cid, srcp, (uint16_t)len, variant);
+                else if (!fixed || !DRV(drv_can_create_fixed)(pdu, cid, srcp, (uint16_t)len, variant)) DRV(drv_can_create)(pdu, cid, srcp, (uint16_t)len, variant);
                 else per_entry["entry.build.create_fixed_size_object"]++;
                 m_payload(); mset("EFF", cid > 0x7ff); mset("CAN_IDENTIFIER", cid); mset("FDF", (uint64_t)variant & 1); m_finalize();
                 kind = "create";
@@ -683,7 +708,7 @@ static void exec(const std::string &text, bool verbose) {
             check_bytes(strf("%s.<build>:%s", f->name, kind.c_str()), strf("after the %s builder (%s) with id 0x%x, %zu payload bytes, variant %d", f->name, kind.c_str(), cid, len, variant));
             // what the message says about its own payload must agree as well
             if (!brief && len <= 64 && (kind == "create" || kind == "finalize")) {
-                uint64_t got = drv_can_payload_length(pdu);
+                uint64_t got = DRV(drv_can_payload_length)(pdu);
                 if (got != len) violation(strf("read:%s.<payload-length>", f->name), strf("Avtp_Can_GetCanPayloadLength returned %llu after the %s builder ran with %zu payload bytes", (unsigned long long)got, kind.c_str(), len));
             }
             b.has_last = false;
